@@ -228,6 +228,23 @@ let c07 (w : string list) : string =
      | Panic _ -> "panic")
   | _ -> failwith "c07: bad command"
 
+(* ---- C12 ---- *)
+let int_of_z = function Z0 -> 0 | Zpos p -> int_of_pos p | Zneg p -> - (int_of_pos p)
+let c12 (w : string list) : string =
+  match w with
+  | ["params"; t; g; mn; dv] ->
+    let z s = z_of_int (int_of_string s) in
+    let (per, g') = par_params (z t) (z g) (z mn) (z dv) in
+    Printf.sprintf "%d %d" (int_of_z per) (int_of_z g')
+  | ["apply"; _variant; rows; nin; words; _g; seed] ->
+    let rows = int_of_string rows and nin = int_of_string nin and words = int_of_string words in
+    let seed = int_of_string seed in
+    let mw = words_of_bytes (gen_bytes "rand" seed (2 * rows * nin)) in
+    let m = chunk nin mw in
+    let ins = List.init nin (fun j -> words_of_bytes (gen_bytes "rand" (seed + 1 + j) (2 * words))) in
+    Printf.sprintf "ok %d" (digest_word_shards (apply_matrix (nat_of_int words) m ins))
+  | _ -> failwith "c12: bad command"
+
 let dispatch (line : string) : string =
   match String.split_on_char ' ' (String.trim line) with
   | "c08" :: w -> c08 w
@@ -235,6 +252,7 @@ let dispatch (line : string) : string =
   | "c09mm" :: w -> c09mm w
   | "c11" :: w -> c11 w
   | "c07" :: w -> c07 w
+  | "c12" :: w -> c12 w
   | _ -> failwith ("bad line: " ^ line)
 
 let () =
